@@ -168,6 +168,47 @@ package sasl
           (and (not (= (str.substr (ffield (old (select rin reader)) 0) 0 2) "OK"))
                (not (= (str.substr (ffield (old (select rin reader)) 0) 0 2) "NO")))))))
 
+; Marshal/Unmarshal: the byte-slice forms of Encode/Decode. Marshal allocates exactly the encoded size and lets Encode append into that
+; array through a bytes.Buffer over data[:0]; the returned slice holds the encoding only if the size is exact (a larger buffer leaves
+; trailing zero bytes, a smaller one makes the Buffer reallocate and the result stays all zero), so "sized exactly" is the clause.
+(func "(*sasl.Request).Marshal"
+  (props C13)
+  (noframe)
+  (callsite "bytes.NewBuffer" 0
+    (requires empty-window-over-the-result (and (= (ref $0) (ref (local data))) (= (off $0) (off (local data))) (= (len $0) 0) (= (cap $0) (len (local data))))))
+  (callsite "(*sasl.Request).Encode" 0 (requires this-request-into-that-buffer (and (= $0 r) (= $1 (callresult "bytes.NewBuffer" 0 0)))))
+  (ensures sized-exactly (=> (= err nil)
+      (= (len data) (str.len (str.++ (enc (. r Login)) (enc (. r Password)) (enc (. r Service)) (enc (. r Realm)))))))
+  (ensures encoded (=> (= err nil)
+      (= (select wout (callresult "bytes.NewBuffer" 0 0))
+         (str.++ (enc (. r Login)) (enc (. r Password)) (enc (. r Service)) (enc (. r Realm))))))
+  (ensures error-is-encodes (= err (callresult "(*sasl.Request).Encode" 0 0))))
+
+(func "(*sasl.Response).Marshal"
+  (props C13)
+  (noframe)
+  (callsite "bytes.NewBuffer" 0
+    (requires empty-window-over-the-result (and (= (ref $0) (ref (local data))) (= (off $0) (off (local data))) (= (len $0) 0) (= (cap $0) (len (local data))))))
+  (callsite "(*sasl.Response).Encode" 0 (requires this-response-into-that-buffer (and (= $0 r) (= $1 (callresult "bytes.NewBuffer" 0 0)))))
+  (ensures sized-exactly (=> (= err nil) (= (len data) (str.len (enc (resptext (. r Result) (. r Message)))))))
+  (ensures encoded (=> (= err nil)
+      (= (select wout (callresult "bytes.NewBuffer" 0 0)) (enc (resptext (. r Result) (. r Message))))))
+  (ensures error-is-encodes (= err (callresult "(*sasl.Response).Encode" 0 0))))
+
+(func "(*sasl.Request).Unmarshal"
+  (props C13)
+  (noframe)
+  (callsite "bytes.NewBuffer" 0 (requires over-exactly-the-input (and (= (content $0) (content data)) (= (len $0) (len data)))))
+  (callsite "(*sasl.Request).Decode" 0 (requires into-this-request-from-that-buffer (and (= $0 r) (= $1 (callresult "bytes.NewBuffer" 0 0)))))
+  (ensures error-is-decodes (= err (callresult "(*sasl.Request).Decode" 0 0))))
+
+(func "(*sasl.Response).Unmarshal"
+  (props C13)
+  (noframe)
+  (callsite "bytes.NewBuffer" 0 (requires over-exactly-the-input (and (= (content $0) (content data)) (= (len $0) (len data)))))
+  (callsite "(*sasl.Response).Decode" 0 (requires into-this-response-from-that-buffer (and (= $0 r) (= $1 (callresult "bytes.NewBuffer" 0 0)))))
+  (ensures error-is-decodes (= err (callresult "(*sasl.Response).Decode" 0 0))))
+
 (func "(*sasl.Server).handleConnection"
   (props C05)
   (use be16 fields)
